@@ -535,4 +535,272 @@ theorem handleLine_unauth (cfg : Cfg) (c : Nat) (s : Str) (x : Ctx)
         simp only [allowedUnregistered, h0, Bool.not_false, Bool.and_self, ↓reduceIte]
         exact Or.inl ⟨h0', pre1.users⟩
 
+theorem handleLine_gate (cfg : Cfg) (x : Ctx) (c : Nat) (s : Str) (msg : Message) (cmd : Command)
+    (hauth : (x.conn c).authenticated = false)
+    (hp : Message.parse s = .ok msg) (hc : Command.fromMessage msg = .ok cmd)
+    (hg : allowedUnregistered cmd = false) :
+    handleLine cfg c s x =
+      (x.modifyW (fun w => bumpCount w cmd.id.index)).reply cfg
+        (ErrNotRegistered451 (x.conn c).clientName) := by
+  rw [handleLine_ok cfg c s x msg cmd hp hc]
+  simp [hg, hauth]
+
+/-- the fields `authDecision` reads (and the host name) are the same in both records -/
+def SameCreds (a b : Conn) : Prop :=
+  a.capsNeg = b.capsNeg ∧ a.nick = b.nick ∧ a.name = b.name ∧ a.source = b.source ∧
+  a.password = b.password ∧ a.hostname = b.hostname ∧ a.realname = b.realname
+
+theorem authenticate_success_conn (cfg : Cfg) (c : Nat) (x : Ctx)
+    (h0 : (x.conn c).authenticated = false)
+    (h1 : ((authenticate cfg c x).conn c).authenticated = true) :
+    ∃ r nick, authDecision cfg (x.conn c) = .decided true r ∧ (x.conn c).nick = some nick ∧
+      Map.contains nick x.w.users = false ∧ (x.w.conn? c).isSome = true ∧
+      SameCreds ((authenticate cfg c x).conn c) (x.conn c) ∧
+      ((authenticate cfg c x).conn c).registered = r := by
+  rcases authenticate_summary cfg c x h0 with ⟨h2, _⟩ | ⟨r, nick, hd, hn, hu, hlive, _⟩
+  · rw [h2] at h1; cases h1
+  · refine ⟨r, nick, hd, hn, hu, hlive, ?_⟩
+    have hid := conn_id x c
+    cases hs : ((x.conn c).hasSender && (x.conn c).hasQuitSender) with
+    | false =>
+      rw [authenticate_good_nosender cfg c x r nick hd hn hu hs, conn_panic,
+        conn_setConn_live x _ c (by exact hid) hlive]
+      exact ⟨⟨rfl, rfl, rfl, rfl, rfl, rfl, rfl⟩, rfl⟩
+    | true =>
+      rw [authenticate_good_free_conn cfg c x r nick hd hn hu hs hlive]
+      exact ⟨⟨rfl, rfl, rfl, rfl, rfl, rfl, rfl⟩, rfl⟩
+
+theorem authDecision_congr (cfg : Cfg) (a b : Conn) (h : SameCreds a b) :
+    authDecision cfg a = authDecision cfg b := by
+  obtain ⟨h1, h2, h3, h4, h5, _, _⟩ := h
+  unfold authDecision
+  rw [h1, h2, h3, h4, h5]
+
+theorem isRegCmd_spec (cmd : Command) (h : isRegCmd cmd = true) :
+    cmd.id ∈ [CmdId.CAP, .PASS, .NICK, .USER] ∧
+    (cmd.id = .CAP → ∃ caps v, cmd = .CAP .END caps v) := by
+  cases cmd
+  case CAP sub caps v =>
+    cases sub <;> simp [isRegCmd] at h
+    exact ⟨by simp [Command.id], fun _ => ⟨caps, v, rfl⟩⟩
+  case PASS => exact ⟨by simp [Command.id], fun h => by simp [Command.id] at h⟩
+  case NICK => exact ⟨by simp [Command.id], fun h => by simp [Command.id] at h⟩
+  case USER => exact ⟨by simp [Command.id], fun h => by simp [Command.id] at h⟩
+  all_goals simp [isRegCmd] at h
+
+/-! ### the records of the other connections -/
+
+/-- `w'` has the same connection records as `w`, except possibly for slot `c` -/
+def Others (c : Nat) (w w' : World) : Prop :=
+  ∀ y : Conn, y.id ≠ c → (y ∈ w'.conns ↔ y ∈ w.conns)
+
+theorem Others.refl (c : Nat) (w : World) : Others c w w := fun _ _ => Iff.rfl
+
+theorem Others.trans {c : Nat} {w1 w2 w3 : World} (h1 : Others c w1 w2) (h2 : Others c w2 w3) :
+    Others c w1 w3 := fun y hy => (h2 y hy).trans (h1 y hy)
+
+theorem others_of_conns_eq {c : Nat} {w w' : World} (h : w'.conns = w.conns) : Others c w w' := by
+  intro y _; rw [h]
+
+theorem others_setConn (c : Nat) (w : World) (cn : Conn) (h : cn.id = c) :
+    Others c w (w.setConn cn) := by
+  intro y hy
+  unfold World.setConn
+  simp only [List.mem_map]
+  constructor
+  · rintro ⟨a, ha, he⟩
+    split at he
+    · subst he; exact absurd h hy
+    · subst he; exact ha
+  · intro hm
+    refine ⟨y, hm, ?_⟩
+    have : (y.id == cn.id) = false := by rw [h]; simpa using hy
+    rw [this]; rfl
+
+theorem authenticate_others (cfg : Cfg) (c : Nat) (x : Ctx) :
+    Others c x.w (authenticate cfg c x).w := by
+  have hid := conn_id x c
+  cases hd : authDecision cfg (x.conn c) with
+  | notReady => rw [authenticate_notReady cfg c x hd]; exact Others.refl c _
+  | maskMismatch => rw [authenticate_mask cfg c x hd]; exact Others.refl c _
+  | decided good r =>
+    cases good with
+    | false => rw [authenticate_bad cfg c x r hd]; exact others_setConn c _ _ hid
+    | true =>
+      cases hn : (x.conn c).nick with
+      | none => rw [authenticate_good_nonick cfg c x r hd hn]; exact Others.refl c _
+      | some nick =>
+        cases hu : Map.contains nick x.w.users with
+        | true =>
+          rw [authenticate_good_inuse cfg c x r nick hd hn hu]; exact others_setConn c _ _ hid
+        | false =>
+          cases hs : ((x.conn c).hasSender && (x.conn c).hasQuitSender) with
+          | false =>
+            rw [authenticate_good_nosender cfg c x r nick hd hn hu hs]
+            exact others_setConn c _ _ hid
+          | true =>
+            rw [authenticate_good_free cfg c x r nick hd hn hu hs]
+            simp only
+            have h1 : Others c x.w (welcomeBurst cfg (regConn (x.conn c) r) (regModes cfg r).render
+                ((x.setConn (regConn (x.conn c) r)).modifyW fun w =>
+                  w.addUser nick (newUser cfg c (x.conn c) r))).w :=
+              (others_setConn c x.w (regConn (x.conn c) r) hid).trans
+                (others_of_conns_eq (by rw [welcomeBurst_conns, Ctx.modifyW_w, addUser_conns]; rfl))
+            split
+            · exact h1.trans (others_setConn c _ _ hid)
+            · exact h1.trans (others_of_conns_eq (World.panic_conns _ _))
+
+/-- a line received on an unauthenticated connection leaves the records of all other
+    connections alone -/
+theorem handleLine_unauth_others (cfg : Cfg) (c : Nat) (s : Str) (x : Ctx)
+    (h0 : (x.conn c).authenticated = false) :
+    Others c x.w (handleLine cfg c s x).w := by
+  have hid := conn_id x c
+  generalize hp : Message.parse s = pr
+  cases pr with
+  | error e =>
+    obtain ⟨l, hl⟩ := handleLine_parse_error cfg c s x e hp
+    rw [hl]; exact Others.refl c _
+  | ok msg =>
+    generalize hc : Command.fromMessage msg = cr
+    cases cr with
+    | error e => rw [handleLine_command_error cfg c s x msg e hp hc]; exact Others.refl c _
+    | ok cmd =>
+      rw [handleLine_ok cfg c s x msg cmd hp hc]
+      have h0' : ((x.modifyW fun w => bumpCount w cmd.id.index).conn c).authenticated = false := h0
+      have hid' : ((x.modifyW fun w => bumpCount w cmd.id.index).conn c).id = c := hid
+      have hna : (!((x.modifyW fun w => bumpCount w cmd.id.index).conn c).authenticated) = true := by
+        rw [h0']; rfl
+      have pre1 : Others c x.w (x.modifyW fun w => bumpCount w cmd.id.index).w :=
+        others_of_conns_eq rfl
+      generalize (x.modifyW fun w => bumpCount w cmd.id.index) = x1 at *
+      have mk : ∀ cn : Conn, cn.id = c → Others c x.w (x1.setConn cn).w :=
+        fun cn h1 => pre1.trans (others_setConn c _ _ h1)
+      cases cmd
+      case CAP sub caps v =>
+        simp only [allowedUnregistered, h0, Bool.not_true, Bool.false_and, Bool.false_eq_true,
+          ↓reduceIte, dispatch]
+        cases sub
+        · exact mk _ hid'
+        · exact pre1
+        · simp only [processCap]
+          split
+          · split
+            · refine (mk _ (by exact hid')).trans (others_setConn c _ _ ?_)
+              split <;> exact hid'
+            · exact mk _ hid'
+          · exact mk _ hid'
+        · simp only [processCap]
+          rw [if_pos hna]
+          exact (mk _ (by exact hid')).trans (authenticate_others cfg c _)
+      case AUTHENTICATE => exact pre1
+      case PASS p =>
+        simp only [allowedUnregistered, h0, Bool.not_true, Bool.false_and, Bool.false_eq_true,
+          ↓reduceIte, dispatch, processPass]
+        rw [if_pos hna]
+        exact (mk _ (by exact hid')).trans (authenticate_others cfg c _)
+      case NICK n =>
+        simp only [allowedUnregistered, h0, Bool.not_true, Bool.false_and, Bool.false_eq_true,
+          ↓reduceIte, dispatch, processNick]
+        rw [if_pos hna]
+        split
+        · exact (mk _ (by exact hid')).trans (authenticate_others cfg c _)
+        · exact pre1
+      case USER u hn sn r =>
+        simp only [allowedUnregistered, h0, Bool.not_true, Bool.false_and, Bool.false_eq_true,
+          ↓reduceIte, dispatch, processUser]
+        rw [if_pos hna]
+        exact (mk _ (by exact hid')).trans (authenticate_others cfg c _)
+      case QUIT => exact mk _ hid'
+      all_goals
+        simp only [allowedUnregistered, h0, Bool.not_false, Bool.and_self, ↓reduceIte]
+        exact pre1
+
+/-! ### the settling phase when only the acting, unauthenticated connection is flagged -/
+
+theorem settleConn_id (cfg : Cfg) (acc : World × List (Nat × Str) × List Str) (c : Nat)
+    (h : ∀ cn, acc.1.conn? c = some cn → cn.quit = false ∧ cn.killedBy = none) :
+    settleConn cfg acc c = acc := by
+  obtain ⟨w, outs, evs⟩ := acc
+  unfold settleConn
+  simp only
+  cases hc : w.conn? c with
+  | none => rfl
+  | some cn =>
+    obtain ⟨hq, hk⟩ := h cn hc
+    simp [hq, hk]
+
+theorem settleConn_quit (cfg : Cfg) (w : World) (outs : List (Nat × Str)) (evs : List Str)
+    (c : Nat) (cn : Conn) (hc : w.conn? c = some cn) (hq : cn.quit = true) :
+    settleConn cfg (w, outs, evs) c =
+      (teardown w c, outs, evs ++ [str "closed " ++ natToStr c]) := by
+  unfold settleConn
+  simp [hc, hq]
+
+theorem teardown_unauth (w : World) (c : Nat) (cn : Conn) (hc : w.conn? c = some cn)
+    (ha : cn.authenticated = false) :
+    teardown w c =
+      { w with conns := w.conns.filter (·.id != c), connsCount := w.connsCount - 1 } := by
+  unfold teardown
+  simp [hc, ha]
+
+theorem foldl_settle_unflagged (cfg : Cfg) (l : List Nat)
+    (acc : World × List (Nat × Str) × List Str)
+    (h : ∀ cn ∈ acc.1.conns, cn.quit = false ∧ cn.killedBy = none) :
+    l.foldl (settleConn cfg) acc = acc := by
+  induction l with
+  | nil => rfl
+  | cons c l ih =>
+    rw [List.foldl_cons, settleConn_id cfg acc c (fun cn hc => h cn (conn?_mem hc)), ih]
+
+theorem foldl_settle_one (cfg : Cfg) (l : List Nat) (w : World) (outs : List (Nat × Str))
+    (evs : List Str) (c : Nat) (cn : Conn) (hc : w.conn? c = some cn) (hq : cn.quit = true)
+    (ha : cn.authenticated = false)
+    (ho : ∀ y ∈ w.conns, y.id ≠ c → y.quit = false ∧ y.killedBy = none) :
+    l.foldl (settleConn cfg) (w, outs, evs) =
+      if c ∈ l then (teardown w c, outs, evs ++ [str "closed " ++ natToStr c])
+      else (w, outs, evs) := by
+  induction l with
+  | nil => rfl
+  | cons c' l ih =>
+    rw [List.foldl_cons]
+    by_cases hcc : c' = c
+    · subst hcc
+      rw [settleConn_quit cfg w outs evs c' cn hc hq, if_pos List.mem_cons_self]
+      apply foldl_settle_unflagged
+      intro y hy
+      rw [teardown_unauth w c' cn hc ha] at hy
+      simp only [List.mem_filter, bne_iff_ne, ne_eq] at hy
+      exact ho y hy.1 hy.2
+    · rw [settleConn_id cfg _ c' (fun y hy => ho y (conn?_mem hy) (by rw [conn?_id hy]; exact hcc)),
+        ih]
+      have : (c ∈ c' :: l) ↔ c ∈ l := by
+        simp only [List.mem_cons]
+        constructor
+        · rintro (h | h)
+          · exact absurd h.symm hcc
+          · exact h
+        · exact Or.inr
+      simp only [this]
+
+theorem settle_one (cfg : Cfg) (w : World) (outs : List (Nat × Str))
+    (evs : List Str) (c : Nat) (cn : Conn) (hc : w.conn? c = some cn) (hq : cn.quit = true)
+    (ha : cn.authenticated = false)
+    (ho : ∀ y ∈ w.conns, y.id ≠ c → y.quit = false ∧ y.killedBy = none) :
+    settle cfg w outs evs =
+      ({ w with conns := w.conns.filter (·.id != c), connsCount := w.connsCount - 1 }, outs,
+        evs ++ [str "closed " ++ natToStr c]) := by
+  unfold settle
+  rw [foldl_settle_one cfg _ w outs evs c cn hc hq ha ho, teardown_unauth w c cn hc ha]
+  have : c ∈ w.conns.map (·.id) := List.mem_map.mpr ⟨cn, conn?_mem hc, conn?_id hc⟩
+  rw [if_pos this]
+
+theorem conn?_filter_self (w : World) (c : Nat) :
+    ({ w with conns := w.conns.filter (·.id != c), connsCount := w.connsCount - 1 } : World).conn? c
+      = none := by
+  unfold World.conn?
+  simp only [List.find?_eq_none, List.mem_filter]
+  rintro y ⟨_, hy⟩
+  simpa using hy
+
 end Irc.C03
